@@ -29,7 +29,7 @@ class Ob:
         return (self.oid, self.instance, self.function, self.construct)
 
     def as_dict(self):
-        d = {"obligation": self.oid, "instance": self.instance, "verdict": "ok" if self.ok else "FAIL",
+        d = {"obligation": self.oid, "instance": self.instance, "verdict": "ok" if self.ok else ("UNDECIDED" if self.ok is None else "FAIL"),
              "where": self.where, "function": self.function, "construct": self.construct, "reason": self.reason}
         if self.detail:
             d["detail"] = self.detail
@@ -42,6 +42,12 @@ def ob_ok(oid, fi=None, node=None, construct="", reason="", instance="", detail=
 
 def ob_fail(oid, fi=None, node=None, construct="", reason="", instance="", detail=None, where=None):
     return _ob(oid, False, fi, node, construct, reason, instance, detail, where)
+
+
+def ob_undecided(oid, fi=None, node=None, construct="", reason="", instance="", detail=None, where=None):
+    """A single obligation the rule could not interpret (construct outside its language).  It is
+    reported as ANALYSIS-ERROR unless another obligation of the run fails (a violation wins)."""
+    return _ob(oid, None, fi, node, construct, reason, instance, detail, where)
 
 
 def _ob(oid, ok, fi, node, construct, reason, instance, detail, where):
@@ -76,7 +82,7 @@ def write_evidence(prop, tier, seed, obs, errors, wall, extra, assumptions, expl
     os.makedirs(EVIDENCE_DIR, exist_ok=True)
     distinct = {o.key() for o in obs}
     samples = [o.as_dict() for o in obs[:6]]
-    fails = [o for o in obs if not o.ok]
+    fails = [o for o in obs if o.ok is False]
     for o in fails:
         if o.as_dict() not in samples:
             samples.append(o.as_dict())
